@@ -170,6 +170,9 @@ def part_children(part, node):
         return []
     if part.ctype == "list" and not is_list:
         return []
+    if getattr(part, "generic", False) and part.ctype == "mol" and isinstance(simp(part.key), Leaf):
+        if is_list:
+            return []  # a key-like condition in the generic slot does not apply to a list
     kc = simp(part.index if is_list else part.key)
     vc = simp(part.value)
     for k, c in items_of(node):
